@@ -37,6 +37,11 @@ Alpha ==
             [multi |-> FALSE, w |-> 8, h |-> 12, news |-> <<New(1, "MnC", <<109>>, <<>>)>>,
              a0 |-> {OpM("suspend", 1, <<83, 10, 84>>), OpM("println", 1, <<76>>), OpM("set_message", 1, <<120, 121>>), Op("finish", 1), Op("finish_and_clear", 1), Op("reset", 1)},        \* no inc / tick: with a ticker installed they leave the repaint to the ticker
              a1 |-> {}]
+      (* ... and the same for a MultiProgress: the ticker belongs to member 1, the caller works through member 2 and the MultiProgress *)
+      [] Family = "multi_ticker" ->
+            [multi |-> TRUE, w |-> 8, h |-> 14, news |-> <<Add(1, "MnC", <<97>>), Add(2, "M", <<98>>)>>,
+             a0 |-> {OpM("mp_suspend", 0, <<83, 10, 86>>), OpM("suspend", 2, <<84>>), OpM("mp_println", 0, <<76>>), OpM("println", 2, <<77>>), OpM("set_message", 2, <<120>>), Op("finish", 2), Op("finish_and_clear", 2)},
+             a1 |-> {}]
       [] Family = "tabs" ->
             [multi |-> FALSE, w |-> 30, h |-> 6, news |-> <<New(1, "PM", <<97, TAB, 98>>, <<112, TAB>>)>>,
              a0 |-> {OpM("set_message", 1, <<120, TAB, 121>>), OpM("set_prefix", 1, <<113, TAB>>), OpM("finish_with_message", 1, <<102, TAB>>), O("set_style", 1, <<>>, 0, "TM")},
@@ -49,7 +54,7 @@ Alpha ==
 A == Alpha
 Seqs1(S) == { <<x>> : x \in S }
 Seqs2(S) == { <<x, y>> : x \in S, y \in S }
-Ticker == Family = "single_ticker"
+Ticker == Family \in {"single_ticker", "multi_ticker"}
 (* with a ticker: the caller's calls, then disable_steady_tick (which stops and joins the thread); the other "thread" of the schedules is the ticker *)
 Progs == IF Ticker THEN { <<t0 \o <<Op("disable", 1)>>, <<>>>> : t0 \in Seqs1(A.a0) \cup Seqs2(A.a0) }
          ELSE { <<t0, t1>> : t0 \in Seqs1(A.a0) \cup Seqs2(A.a0), t1 \in Seqs1(A.a1) \cup (IF Two1 THEN Seqs2(A.a1) ELSE {}) }
